@@ -28,6 +28,8 @@ def _af_dims(rule):
         Dim("group", [1, 2], cost=1), Dim("stride", [1, 2], cost=1), Dim("dilation", [1, 2], cost=1),
         Dim("auto_pad", ["absent", "SAME_UPPER", "VALID"], cost=1),
         Dim("dtype", ["f32", "f64"], cost=1),
+        # a second instance of the pattern sharing the weight and bias initializers, with another scale
+        Dim("twin", ["no", "yes"], cost=1),
         S.d_ck(4), S.d_inter(2), S.D_DIMS, S.D_VI, S.d_opset(18, 13, 21, 23),
     ]
 
@@ -92,12 +94,20 @@ def _af_build(p, rule):
         m, a = affine(x)
         y = mb.node("Conv", [a, w] + ([b] if b else []), **attrs)
         mb.out(y)
-        S.expose(mb, p, [m, a])
     else:
         c = mb.node("Conv", [x, w] + ([b] if b else []), **attrs)
         m, a = affine(c)
         mb.out(a)
-        S.expose(mb, p, [c, m])
+    if p["twin"] == "yes":
+        s2 = mb.const(sv * d(3) + d(1), "init")
+        o2 = mb.const(ov + d(2), "init")
+        if pre:
+            a2 = mb.node("Add", [mb.node("Mul", [x, s2]), o2])
+            mb.out(mb.node("Conv", [a2, w] + ([b] if b else []), **attrs))
+        else:
+            c2 = mb.node("Conv", [x, w] + ([b] if b else []), **attrs)
+            mb.out(mb.node("Add", [mb.node("Mul", [c2, s2]), o2]))
+    S.expose(mb, p, [m, a] if pre else [c, m])
     return mb
 
 
@@ -108,6 +118,8 @@ def _af_near(p, rule):
 
 def _af_klass(nd, p, rule):
     keys = set(nd)
+    if keys == {"twin"}:
+        return "twin=second-instance-sharing-weight-and-bias"
     if keys & {"sshape", "oshape"} and keys <= {"sshape", "oshape", "sval", "oval", "kernel", "rank", "pads"}:
         if all(nd.get(k, "[]") in ("[]", "[1,1,1,1]", "[1,1,1,1,1]") for k in ("sshape", "oshape")):
             return "scale/offset=singleton-of-rank>1"
@@ -490,7 +502,8 @@ def _gm_klass(nd, p, rule):
     return None
 
 
-S.register(Space("gemm_to_matmul_add", _gm_dims, _gm_build, near=_gm_near, prune=_gm_prune, klass=_gm_klass, accum=True),
+S.register(Space("gemm_to_matmul_add", _gm_dims, _gm_build, near=_gm_near, prune=_gm_prune, klass=_gm_klass, accum=True,
+                 max_dev={"thorough": 1}),
            rule_ids=["gemm_to_matmul_add_rule"])
 
 
@@ -505,10 +518,10 @@ def _ma_dims(rule):
     return [
         Dim("C", list(_MA_C)),
         Dim("arank", [2, 3, 1]), Dim("brank", [2, 3, 1]),
-        Dim("perm", ["[1,0]", "absent"]),
+        Dim("perm", ["[1,0]", "absent"], cost=1),
         Dim("add_order", ["mc", "cm"]),
-        Dim("csrc", ["init", "input"]),
-        Dim("dtype", ["f32"], ["f32", "f64", "i32"]),
+        Dim("csrc", ["init", "input"], cost=1),
+        Dim("dtype", ["f32", "f64", "i32"], cost=1),
         S.d_inter(3), S.D_DIMS, S.D_VI, S.d_opset(18, 13, 21, 23),
     ]
 
